@@ -386,6 +386,25 @@ func runC15(c *Ctx) {
 		}
 		cases = append(cases, k)
 	}
+	// the failover-log query fails on a first start from `latest`: start-up must refuse whatever the vBuckets hold -- also
+	// empty ones (high seqNo 0), alone or next to non-empty ones
+	for n := 1; n <= 3; n++ {
+		for pat := 0; pat < 1<<n; pat++ {
+			for _, finite := range []bool{false, true} {
+				k := c15Case{Cfg: SCfg{Latest: true, Finite: finite, Colls: map[uint32]string{}}, Initial: map[uint16]SDoc{}, First: 0, Last: uint16(n - 1),
+					Sv: SServer{High: map[uint16]uint64{}, UUID: map[uint16]uint64{}}, Mode: "open", FailLogErr: true}
+				for vb := 0; vb < n; vb++ {
+					k.Sv.UUID[uint16(vb)] = 70 + uint64(vb)
+					if pat&(1<<vb) != 0 {
+						k.Sv.High[uint16(vb)] = 5
+					} else {
+						k.Sv.High[uint16(vb)] = 0
+					}
+				}
+				cases = append(cases, k)
+			}
+		}
+	}
 	for _, have := range [][]uint16{{0}, {1}, {0, 1}, {0, 2}, {1, 2}, {0, 1, 2}} {
 		k := c15Case{Cfg: SCfg{Colls: map[uint32]string{}}, Initial: map[uint16]SDoc{}, First: 0, Last: 2, Partial: true,
 			Sv: SServer{High: map[uint16]uint64{0: 9, 1: 9, 2: 9}, UUID: map[uint16]uint64{0: 70, 1: 71, 2: 72}}, Mode: "open"}
